@@ -514,6 +514,13 @@ def absorb_aspects(rep, pid, t, recs, aspects, describe):
             elif a == 'textobj':
                 body = ("a = run(%r, %r, K); b = run(%r, mods[%r].Parser()(%r), K)\nbad = [] if a == b else ['text and object input disagree: %%r vs %%r' %% (a, b)]\n"
                         % (rec['logic'], rec['formula'], rec['logic'], rec['logic'], rec['formula']))
+            elif a == 'after_edit':
+                body = ("r1 = run(%r, %r, K)\nlast = states[n - 1]\nK.labels(last).add(names['p'])\nr2 = run(%r, %r, K)\n"
+                        "L2 = {i: sorted(set(L[i]) | ({'p'} if i == n - 1 else set())) for i in range(n)}\n"
+                        "want = explicit.sat_states(explicit.Struct(n, R, L2), CTLS.Parser()(%r))\n"
+                        "print('first call ->', r1, '; after the caller added p to the last state ->', r2, '; reference for the edited structure ->', want)\n"
+                        "bad = [] if (isinstance(r2, set) and norm(r2) == want) else ['stale answer after an in-place edit of the structure: %%r, expected %%r' %% (r2, want)]\n"
+                        % (rec['logic'], rec['formula'], rec['logic'], rec['formula'], fm))
             elif a == 'determ':
                 body = ("a = run(%r, %r, K)\nK2 = Kripke(S=list(K.states()), R=list(K.transitions()), L={s: ({'p', 'q'} - set(K.labels(s))) for s in K.states()})\n"
                         "run(%r, %r, K2)\nb = run(%r, %r, K)\nbad = [] if a == b else ['same call returned %%r, then (after a call on another structure) %%r' %% (a, b)]\n"
@@ -690,12 +697,12 @@ def run_c07(rep, tier):
     ctlf = formulas.CTL_SINGLE + formulas.ctl_pairs()[::6]
     ltlf = ['A G p', 'A (p U q)', 'A F G p', 'A (X p or F q)', 'A ((p U q) R p)']
     ctlsf = ['E F X q', 'A (F G q --> E G p)', 'E (p U (A X q and X p))', 'E G F p', 'E X A X p', '(p and A X E X q)', 'A F E G p']
-    o = dict(interleave=True, recall=True, as_text=True)
+    o = dict(interleave=True, recall=True, as_text=True, edit_then_call=True)
     tasks = [('CTL', 3, ch, dict(o)) for ch in chunks(ctlf, 6)]
     tasks += [('LTL', 2, [x], dict(o)) for x in ltlf] + [('CTLS', 2, [x], dict(o)) for x in ctlsf]
     tasks += [('CTL', 2, ch, dict(o, fair=1, ctls_oracle=True, outside_d7=False)) for ch in chunks(ctlf[3:], 8)]
     tasks += [('CTLS', 2, ch, dict(o, fair=1, ctls_oracle=True, outside_d7=False)) for ch in chunks(ctlsf + ctlf[7:13], 3)]
-    done = run_tasks(rep, 'C07', tasks, ('pure', 'determ', 'recall_same', 'textobj', 'unwind'), 'the call leaves K and the formula unchanged; repeating it (also after a call on another structure) gives an equal set',
+    done = run_tasks(rep, 'C07', tasks, ('pure', 'determ', 'recall_same', 'textobj', 'unwind', 'after_edit'), 'the call leaves K and the formula unchanged; repeating it (also after a call on another structure) gives an equal set',
                      mem_heavy=True)
     rep.cov['bounds'].update(n='3 (CTL) / 2 (LTL, CTL*, fairness)', formulas=len(ctlf) + len(ltlf) + len(ctlsf), histories='call; call(other structure, same formula); call  and  call; mutate result; call')
     rep.cov['programs'] = len(ctlf) + len(ltlf) + len(ctlsf)
